@@ -11,6 +11,7 @@ inductive UnitKind where
   | zero      -- all-zero: "no more blocks in this file"
   | header (x : Cell)
   | garbage   -- inside some entry's payload: non-zero bytes, invalid `meta_len` (payload bytes are ≥ 0x80)
+  deriving DecidableEq
 
 def unitKind (c : Cfg) (cells : List Cell) (off : Nat) : UnitKind :=
   match cellAt cells off with
